@@ -277,6 +277,8 @@ static void k_x25519(Tape &t)
 	if (cls == 3) { u[31] |= 0x80; }                                         // unused top bit set: must be ignored (RFC 7748)
 	size_t klen = t.u8() % 5 == 0 ? (size_t)t.range(1, 31) : 32;            // shorter big-endian scalars are zero-extended
 	Bytes kbe(k.begin(), k.begin() + klen);
+	// bearssl_ec.h (br_ec_private_key): "the encoding ... tolerates extra leading zeros" - as every NIST-curve implementation does
+	size_t zpad = t.u8() % 6 == 5 ? (size_t)(1 + t.u8() % 8) : 0;
 	// reference: RFC 7748 scalar is little-endian; BearSSL takes big-endian
 	Bytes kle(32, 0);
 	for (size_t i = 0; i < klen; i++) kle[i] = kbe[klen - 1 - i];
@@ -292,10 +294,11 @@ static void k_x25519(Tape &t)
 		EVP_PKEY_CTX_free(c); EVP_PKEY_free(sk); EVP_PKEY_free(pk);
 	}
 	Bytes first;
+	if (zpad) kbe.insert(kbe.begin(), zpad, 0);
 	for (auto *im : iv) {
 		Bytes g = u;
 		uint32_t r = im->impl->mul(g.data(), 32, kbe.data(), kbe.size(), BR_EC_curve25519);
-		VF_CHECK(r == 1, "%s X25519: mul reports failure for a 32-byte input", im->name);
+		VF_CHECK(r == 1, "%s X25519: mul reports failure for a 32-byte point and a scalar of %zu bytes (%zu leading zero bytes)", im->name, kbe.size(), zpad);
 		if (refok) VF_CHECK(g == want, "%s X25519 (u class %u, scalar %zu bytes): %s, RFC 7748 / OpenSSL says %s", im->name, cls, klen, hex(g.data(), 32).c_str(), hex(want.data(), 32).c_str());
 		if (first.empty()) first = g; else VF_CHECK(g == first, "%s X25519 differs from %s", im->name, iv[0]->name);
 		if (cls == 0) {
@@ -309,7 +312,8 @@ static void k_x25519(Tape &t)
 			"%s X25519: a point of the wrong length is accepted", im->name);
 	}
 	stats.cls(refok ? "x25519:vs-openssl" : "x25519:openssl-refused(low order result)");
-	stats.eval(fmt("x/%u/%zu", cls, klen));
+	if (zpad) stats.cls("x25519:zero-padded-scalar");
+	stats.eval(fmt("x/%u/%zu/%zu", cls, klen, zpad));
 }
 
 // ---------------------------------------------------------------- ECDSA
